@@ -2140,6 +2140,11 @@ func c07ExecContract(c *Ctx) {
 		if a == leaf {
 			return true
 		}
+		// ... or a value all of whose definitions, through helper parameters and helper results (the wrapped call
+		// made in one helper, its execution traced in another), are that leaf
+		if ds := deepDefs(a, scope); depth == 0 && len(ds) == 1 && ds[0] == leaf {
+			return true
+		}
 		pr, isP := a.(*ssa.Parameter)
 		if !isP || depth > 2 {
 			return false
